@@ -180,6 +180,18 @@ CHECKS["C17"] = dict(
           "eigenspaces of dimension >= 2 do not rotate with the mesh (known finding F21)."),
     design="6/C17", technique="Coq proof over R (permutation case analysis, ring/field) + oracle-recording correspondence at binary64")
 
+CHECKS["C19"] = dict(
+    text=("Theorems over R, for every sparse solver meeting its contract: normalize_ yields unit area and centroid at the origin on "
+          "every mesh of positive area; tria_mean_curvature_flow returns the input connectivity and a re-normalised solver answer "
+          "(hence unit area, centred); every iteration's answer X satisfies (M + step A0) X = M V coordinate-wise with M the lumped "
+          "mass of the current iterate and A0 the fixed stiffness; max_iter = 0 returns the normalised copy; a mesh returned by "
+          "tria_spherical_project's final stage has the input connectivity, passed the documented gates and has every vertex at "
+          "distance 100. spsolve's recorded answers are verified inside Coq against the model's systems (certificate), the stopping "
+          "rule and the returned vertices are replayed; sphere fixed point, radial spread, orientation and axis alignment of the "
+          "projection, argument-untouched are decided by oracles on the implementation; the eigen-embedding part of the projection "
+          "is not modelled (partial)."),
+    design="6/C19", technique="Coq proof over R parametric in the solver oracle + in-Coq certificate replay of recorded solves")
+
 NOT_YET = {}
 
 
